@@ -21,6 +21,7 @@ import (
 	ledgercontroller "github.com/formancehq/ledger/internal/controller/ledger"
 	"github.com/formancehq/ledger/internal/queries"
 	"github.com/formancehq/ledger/internal/storage/common"
+	ledgerstore "github.com/formancehq/ledger/internal/storage/ledger"
 	systemstore "github.com/formancehq/ledger/internal/storage/system"
 )
 
@@ -119,6 +120,8 @@ func (f *Fake) FirstCall(method string) *Call {
 }
 
 func u64(v uint64) *uint64 { return &v }
+
+func pagErr[T any](_ *paginate.Cursor[T], err error) error { return err }
 
 func cannedTx() ledger.Transaction {
 	tx := ledger.NewTransaction().WithPostings(ledger.NewPosting("world", "bank", "USD/2", big.NewInt(100)))
@@ -338,7 +341,7 @@ func (l *FakeLedger) GetAccount(ctx context.Context, q common.ResourceQuery[any]
 	if err := l.rec("GetAccount", false, canonRQ(q.PIT, q.OOT, q.Builder, q.Expand, q.Opts)); err != nil {
 		return nil, err
 	}
-	if err := l.f.validate("GetAccount", common.VerifResourceValidate(queries.AccountSchema, q)); err != nil {
+	if err := l.f.validate("GetAccount", common.VerifCountEmpty[ledger.Account, any](queries.AccountSchema, func(op, prop string, v any) error { return ledgerstore.VerifResolveFilter("accounts", op, prop, v) }, q)); err != nil {
 		return nil, err
 	}
 	return &ledger.Account{Address: "bank", Metadata: metadata.Metadata{"k": "v"}}, nil
@@ -347,7 +350,7 @@ func (l *FakeLedger) ListAccounts(ctx context.Context, q common.PaginatedQuery[a
 	if err := l.rec("ListAccounts", false, canonPQ[any](q)); err != nil {
 		return nil, err
 	}
-	if err := l.f.validate("ListAccounts", common.VerifPaginateValidate[any](queries.AccountSchema, "address", paginate.OrderAsc, q)); err != nil {
+	if err := l.f.validate("ListAccounts", pagErr(common.VerifPaginateEmpty[ledger.Account, any](queries.AccountSchema, func(op, prop string, v any) error { return ledgerstore.VerifResolveFilter("accounts", op, prop, v) }, "address", paginate.OrderAsc, q))); err != nil {
 		return nil, err
 	}
 	return &paginate.Cursor[ledger.Account]{PageSize: 15, Data: []ledger.Account{{Address: "bank", Metadata: metadata.Metadata{}}}}, nil
@@ -356,13 +359,13 @@ func (l *FakeLedger) CountAccounts(ctx context.Context, q common.ResourceQuery[a
 	if err := l.rec("CountAccounts", false, canonRQ(q.PIT, q.OOT, q.Builder, q.Expand, q.Opts)); err != nil {
 		return 0, err
 	}
-	return 1, l.f.validate("CountAccounts", common.VerifResourceValidate(queries.AccountSchema, q))
+	return 1, l.f.validate("CountAccounts", common.VerifCountEmpty[ledger.Account, any](queries.AccountSchema, func(op, prop string, v any) error { return ledgerstore.VerifResolveFilter("accounts", op, prop, v) }, q))
 }
 func (l *FakeLedger) ListLogs(ctx context.Context, q common.PaginatedQuery[any]) (*paginate.Cursor[ledger.Log], error) {
 	if err := l.rec("ListLogs", false, canonPQ[any](q)); err != nil {
 		return nil, err
 	}
-	if err := l.f.validate("ListLogs", common.VerifPaginateValidate[any](queries.LogSchema, "id", paginate.OrderDesc, q)); err != nil {
+	if err := l.f.validate("ListLogs", pagErr(common.VerifPaginateEmpty[ledger.Log, any](queries.LogSchema, func(op, prop string, v any) error { return ledgerstore.VerifResolveFilter("logs", op, prop, v) }, "id", paginate.OrderDesc, q))); err != nil {
 		return nil, err
 	}
 	return &paginate.Cursor[ledger.Log]{PageSize: 15, Data: []ledger.Log{}}, nil
@@ -371,13 +374,13 @@ func (l *FakeLedger) CountTransactions(ctx context.Context, q common.ResourceQue
 	if err := l.rec("CountTransactions", false, canonRQ(q.PIT, q.OOT, q.Builder, q.Expand, q.Opts)); err != nil {
 		return 0, err
 	}
-	return 1, l.f.validate("CountTransactions", common.VerifResourceValidate(queries.TransactionSchema, q))
+	return 1, l.f.validate("CountTransactions", common.VerifCountEmpty[ledger.Transaction, any](queries.TransactionSchema, func(op, prop string, v any) error { return ledgerstore.VerifResolveFilter("transactions", op, prop, v) }, q))
 }
 func (l *FakeLedger) ListTransactions(ctx context.Context, q common.PaginatedQuery[any]) (*paginate.Cursor[ledger.Transaction], error) {
 	if err := l.rec("ListTransactions", false, canonPQ[any](q)); err != nil {
 		return nil, err
 	}
-	if err := l.f.validate("ListTransactions", common.VerifPaginateValidate[any](queries.TransactionSchema, "id", paginate.OrderDesc, q)); err != nil {
+	if err := l.f.validate("ListTransactions", pagErr(common.VerifPaginateEmpty[ledger.Transaction, any](queries.TransactionSchema, func(op, prop string, v any) error { return ledgerstore.VerifResolveFilter("transactions", op, prop, v) }, "id", paginate.OrderDesc, q))); err != nil {
 		return nil, err
 	}
 	return &paginate.Cursor[ledger.Transaction]{PageSize: 15, Data: []ledger.Transaction{cannedTx()}}, nil
@@ -386,7 +389,7 @@ func (l *FakeLedger) GetTransaction(ctx context.Context, q common.ResourceQuery[
 	if err := l.rec("GetTransaction", false, canonRQ(q.PIT, q.OOT, q.Builder, q.Expand, q.Opts)); err != nil {
 		return nil, err
 	}
-	if err := l.f.validate("GetTransaction", common.VerifResourceValidate(queries.TransactionSchema, q)); err != nil {
+	if err := l.f.validate("GetTransaction", common.VerifCountEmpty[ledger.Transaction, any](queries.TransactionSchema, func(op, prop string, v any) error { return ledgerstore.VerifResolveFilter("transactions", op, prop, v) }, q)); err != nil {
 		return nil, err
 	}
 	tx := cannedTx()
@@ -396,7 +399,7 @@ func (l *FakeLedger) GetVolumesWithBalances(ctx context.Context, q common.Pagina
 	if err := l.rec("GetVolumesWithBalances", false, canonPQ[ledger.GetVolumesOptions](q)); err != nil {
 		return nil, err
 	}
-	if err := l.f.validate("GetVolumesWithBalances", common.VerifPaginateValidate[ledger.GetVolumesOptions](queries.VolumeSchema, "account", paginate.OrderAsc, q)); err != nil {
+	if err := l.f.validate("GetVolumesWithBalances", pagErr(common.VerifPaginateEmpty[ledger.VolumesWithBalanceByAssetByAccount, ledger.GetVolumesOptions](queries.VolumeSchema, func(op, prop string, v any) error { return ledgerstore.VerifResolveFilter("volumes", op, prop, v) }, "account", paginate.OrderAsc, q))); err != nil {
 		return nil, err
 	}
 	return &paginate.Cursor[ledger.VolumesWithBalanceByAssetByAccount]{PageSize: 15, Data: []ledger.VolumesWithBalanceByAssetByAccount{}}, nil
@@ -405,7 +408,7 @@ func (l *FakeLedger) GetAggregatedBalances(ctx context.Context, q common.Resourc
 	if err := l.rec("GetAggregatedBalances", false, canonRQ(q.PIT, q.OOT, q.Builder, q.Expand, q.Opts)); err != nil {
 		return nil, err
 	}
-	if err := l.f.validate("GetAggregatedBalances", common.VerifResourceValidate(queries.AggregatedBalanceSchema, q)); err != nil {
+	if err := l.f.validate("GetAggregatedBalances", common.VerifCountEmpty[ledger.AggregatedVolumes, ledger.GetAggregatedVolumesOptions](queries.AggregatedBalanceSchema, func(op, prop string, v any) error { return ledgerstore.VerifResolveFilter("aggregated", op, prop, v) }, q)); err != nil {
 		return nil, err
 	}
 	return ledger.BalancesByAssets{"USD/2": big.NewInt(100)}, nil
@@ -520,7 +523,7 @@ func (l *FakeLedger) ListSchemas(ctx context.Context, q common.PaginatedQuery[an
 	if err := l.rec("ListSchemas", false, canonPQ[any](q)); err != nil {
 		return nil, err
 	}
-	if err := l.f.validate("ListSchemas", common.VerifPaginateValidate[any](queries.SchemaSchema, "created_at", paginate.OrderDesc, q)); err != nil {
+	if err := l.f.validate("ListSchemas", pagErr(common.VerifPaginateEmpty[ledger.Schema, any](queries.SchemaSchema, func(op, prop string, v any) error { return ledgerstore.VerifResolveFilter("schemas", op, prop, v) }, "created_at", paginate.OrderDesc, q))); err != nil {
 		return nil, err
 	}
 	return &paginate.Cursor[ledger.Schema]{PageSize: 15, Data: []ledger.Schema{}}, nil
